@@ -1482,6 +1482,7 @@ impl<'a> Query<'a> {
     ) -> Result<(Vec<Self>, &'a str), StamError> {
         let mut subqueries = Vec::new();
         if querystring.trim_start().chars().nth(0) == Some('{') {
+            querystring = querystring.trim_start();
             loop {
                 querystring = &querystring[1..].trim_start(); //strips the { or | and any spaces
                 let (attributes, remainder) = Self::parse_attributes(querystring)?;
